@@ -258,6 +258,30 @@ impl std::ops::Add for Scad {
     }
 }
 
+/// Writes a string as an OpenSCAD string literal.
+///
+/// Rust's `{:?}` writes `\u{..}` escapes for control characters, combining marks
+/// and other non-printable code points, which OpenSCAD does not understand. OpenSCAD
+/// only needs `\\`, `\"`, `\n`, `\t` and `\r` escaped, everything else is taken literally.
+struct ScadStr<'a>(&'a str);
+
+impl std::fmt::Display for ScadStr<'_> {
+    fn fmt(&self, f: &mut std::fmt::Formatter<'_>) -> std::fmt::Result {
+        write!(f, "\"")?;
+        for c in self.0.chars() {
+            match c {
+                '\\' => write!(f, "\\\\")?,
+                '"' => write!(f, "\\\"")?,
+                '\n' => write!(f, "\\n")?,
+                '\t' => write!(f, "\\t")?,
+                '\r' => write!(f, "\\r")?,
+                _ => write!(f, "{}", c)?,
+            }
+        }
+        write!(f, "\"")
+    }
+}
+
 /// Since we are outputting text we leverage the Display trait to format output.
 impl std::fmt::Display for Scad {
     fn fmt(&self, f: &mut std::fmt::Formatter<'_>) -> std::fmt::Result {
@@ -327,22 +351,27 @@ impl std::fmt::Display for Scad {
                 script,
                 fn_,
             } => {
-                write!(f, "text(text={:?}, ", text)?;
+                write!(f, "text(text={}, ", ScadStr(text))?;
                 write!(f, "size={}, ", size)?;
-                write!(f, "font={:?}, ", font)?;
+                write!(f, "font={}, ", ScadStr(font))?;
                 write!(f, "halign=\"{:?}\", ", halign)?;
                 write!(f, "valign=\"{:?}\", ", valign)?;
                 write!(f, "spacing={}, ", spacing)?;
                 write!(f, "direction=\"{:?}\", ", direction)?;
-                write!(f, "language={:?}, ", language)?;
-                write!(f, "script={:?}", script)?;
+                write!(f, "language={}, ", ScadStr(language))?;
+                write!(f, "script={}", ScadStr(script))?;
                 if let Some(fn_) = fn_ {
                     write!(f, ", $fn={}", fn_)?;
                 }
                 write!(f, ");")?;
             }
             ScadOp::Import { file, convexity } => {
-                write!(f, "import(file={:?}, convexity={});", file, convexity)?;
+                write!(
+                    f,
+                    "import(file={}, convexity={});",
+                    ScadStr(file),
+                    convexity
+                )?;
             }
             ScadOp::Projection { cut } => {
                 writeln!(f, "projection(cut={}) {{", cut)?;
@@ -453,8 +482,11 @@ impl std::fmt::Display for Scad {
             } => {
                 write!(
                     f,
-                    "surface(file={:?}, center={}, invert={}, convexity={});",
-                    file, center, invert, convexity
+                    "surface(file={}, center={}, invert={}, convexity={});",
+                    ScadStr(file),
+                    center,
+                    invert,
+                    convexity
                 )?;
             }
             ScadOp::Translate { v } => {
@@ -513,7 +545,7 @@ impl std::fmt::Display for Scad {
                     }
                     writeln!(f, ") {{")?;
                 } else if let Some(hex) = hex {
-                    writeln!(f, "color({:?}) {{", hex)?;
+                    writeln!(f, "color({}) {{", ScadStr(hex))?;
                 }
             }
             ScadOp::Offset { r, delta, chamfer } => {
